@@ -1,9 +1,227 @@
-//! c13 -- placeholder; implemented by the owning property module.
+//! c13 -- drive `sc62015_core::timer::TimerContext` over a generated history.
+//!
+//! Thin adapter, no timer semantics of its own.  A case is
+//!   {"mti": p, "sti": q, "enabled": bool, "isr0": byte, "ops": [[verb, arg?], ...]}
+//! and every op maps to exactly one public call of the crate:
+//!   ["t", c]   TimerContext::tick_timers(&mut MemoryImage, c, None)
+//!   ["b", n]   n ticks at last_cycle+1 ..= last_cycle+n   (WAIT-like burst; one observation per tick)
+//!   ["r", b]   TimerContext::reset(b)
+//!   ["s", k]   snapshot_info() -> (k=1: serde_json round trip of TimerInfo/InterruptInfo) ->
+//!              apply_snapshot_info() on a *fresh* TimerContext built with unrelated defaults
+//!   ["w", v]   MemoryImage::write_internal_byte(0xFC, v)   (firmware acknowledging/clearing ISR bits)
+//! "machine" verb: the same timer inside `CoreRuntime::step` (NOP / WAIT / HALT programs), see run_machine().
+//! Observation per tick: [fired_mti | fired_sti<<1, next_mti, next_sti, ISR byte after the tick];
+//! per reset/snapshot: [next_mti, next_sti]; per write: [ISR].
+use crate::util::{err, get_bool, get_u64};
+use sc62015_core::memory::MemoryImage;
+use sc62015_core::timer::TimerContext;
+use sc62015_core::{CoreRuntime, InterruptInfo, TimerInfo};
 use serde_json::{json, Value};
 
 #[derive(Default)]
 pub struct State {}
 
-pub fn handle(verb: &str, _req: &Value, _st: &mut State) -> Value {
-    json!({"ok": false, "error": format!("c13.{verb} not implemented")})
+const ISR: u32 = 0xFC;
+
+fn tick(ctx: &mut TimerContext, mem: &mut MemoryImage, c: u64) -> Value {
+    let (m, s) = ctx.tick_timers(mem, c, None);
+    let isr = mem.read_internal_byte(ISR).unwrap_or(0);
+    json!([(m as u8) | ((s as u8) << 1), ctx.next_mti, ctx.next_sti, isr])
+}
+
+/// Harness self-protection, not timer semantics: a generated history never makes a correct implementation
+/// loop more than `limit` times inside one tick.  If the context's own target has been left so far behind that
+/// the next tick would spin for longer, stop driving it and say so (the Python side reports it).
+fn runaway(ctx: &TimerContext, c: u64, limit: u64) -> Option<Value> {
+    if !ctx.enabled || limit == 0 {
+        return None;
+    }
+    for (name, p, n) in [
+        ("MTI", ctx.mti_period, ctx.next_mti),
+        ("STI", ctx.sti_period, ctx.next_sti),
+    ] {
+        if p > 0 && c >= n && (c - n) / p > limit {
+            return Some(json!({"runaway": [name, c, n]}));
+        }
+    }
+    None
+}
+
+fn run_case(case: &Value) -> Value {
+    let enabled = get_bool(case, "enabled", true);
+    let mti = get_u64(case, "mti", 0).min(i32::MAX as u64) as i32;
+    let sti = get_u64(case, "sti", 0).min(i32::MAX as u64) as i32;
+    let mut ctx = TimerContext::new(enabled, mti, sti);
+    let mut mem = MemoryImage::new();
+    mem.write_internal_byte(ISR, get_u64(case, "isr0", 0) as u8);
+    let limit = get_u64(case, "runaway", 0);
+    let mut last: u64 = 0;
+    let mut obs: Vec<Value> = Vec::new();
+    let empty = Vec::new();
+    let ops = case.get("ops").and_then(|v| v.as_array()).unwrap_or(&empty);
+    for op in ops {
+        let verb = op.get(0).and_then(|v| v.as_str()).unwrap_or("");
+        let arg = op.get(1).and_then(|v| v.as_u64()).unwrap_or(0);
+        if verb == "t" || verb == "b" {
+            let c = if verb == "t" { arg } else { last + 1 };
+            if let Some(r) = runaway(&ctx, c, limit) {
+                obs.push(r);
+                break;
+            }
+        }
+        match verb {
+            "t" => {
+                last = arg;
+                obs.push(tick(&mut ctx, &mut mem, arg));
+            }
+            "b" => {
+                let mut burst: Vec<Value> = Vec::with_capacity(arg as usize);
+                for _ in 0..arg {
+                    last += 1;
+                    burst.push(tick(&mut ctx, &mut mem, last));
+                }
+                obs.push(Value::Array(burst));
+            }
+            "r" => {
+                ctx.reset(arg);
+                last = arg;
+                obs.push(json!([ctx.next_mti, ctx.next_sti]));
+            }
+            "s" => {
+                let (ti, ii) = ctx.snapshot_info();
+                let (ti, ii): (TimerInfo, InterruptInfo) = if arg == 1 {
+                    let a = serde_json::to_string(&ti).expect("TimerInfo serialises");
+                    let b = serde_json::to_string(&ii).expect("InterruptInfo serialises");
+                    (
+                        serde_json::from_str(&a).expect("TimerInfo deserialises"),
+                        serde_json::from_str(&b).expect("InterruptInfo deserialises"),
+                    )
+                } else {
+                    (ti, ii)
+                };
+                // Fresh context with unrelated configuration: everything must come from the snapshot.
+                let mut fresh = TimerContext::new(!enabled, 2048, 512_000);
+                fresh.apply_snapshot_info(&ti, &ii, last);
+                ctx = fresh;
+                obs.push(json!([ctx.next_mti, ctx.next_sti]));
+            }
+            "w" => {
+                mem.write_internal_byte(ISR, arg as u8);
+                obs.push(json!([mem.read_internal_byte(ISR).unwrap_or(0)]));
+            }
+            _ => return json!({"error": format!("unknown op {verb}")}),
+        }
+    }
+    json!({"obs": obs, "enabled": ctx.enabled, "mti": ctx.mti_period, "sti": ctx.sti_period})
+}
+
+/// Machine level: a `CoreRuntime` with a program in RAM, IMR = 0 (nothing is ever delivered), the runtime's
+/// timer replaced by `TimerContext::new(enabled, mti, sti)` (as async_runtime.rs does), stepped one instruction
+/// at a time.  Per step the harness may first clear ISR bits (firmware acknowledging) or push the runtime through
+/// `save_snapshot` -> fresh `CoreRuntime` -> `load_snapshot`.  Observation after each step:
+/// [cycle_count, ISR, next_mti, next_sti, halted, pc].
+fn run_machine(case: &Value) -> Value {
+    let enabled = get_bool(case, "enabled", true);
+    let mti = get_u64(case, "mti", 0).min(i32::MAX as u64) as i32;
+    let sti = get_u64(case, "sti", 0).min(i32::MAX as u64) as i32;
+    let base = get_u64(case, "base", 0xB8100) as u32;
+    let prog: Vec<u8> = case
+        .get("prog")
+        .and_then(|v| v.as_array())
+        .map(|a| a.iter().map(|x| x.as_u64().unwrap_or(0) as u8).collect())
+        .unwrap_or_default();
+    let snap_path = case.get("snap_path").and_then(|v| v.as_str()).unwrap_or("");
+    let mut rt = CoreRuntime::new();
+    rt.load_rom(&prog, base as usize);
+    rt.state.set_pc(base);
+    rt.set_reg("S", 0xBFF00);
+    rt.memory.write_internal_byte(0xFB, 0);
+    rt.memory.write_internal_byte(ISR, 0);
+    *rt.timer = TimerContext::new(enabled, mti, sti);
+    if let Some(b) = case.get("timer_base").and_then(|v| v.as_u64()) {
+        rt.timer.reset(b);
+    }
+    let mut obs: Vec<Value> = Vec::new();
+    let empty = Vec::new();
+    let steps = case.get("steps").and_then(|v| v.as_array()).unwrap_or(&empty);
+    for st in steps {
+        // st = [clear_mask, snapshot(0/1)]
+        let clear = st.get(0).and_then(|v| v.as_u64()).unwrap_or(0) as u8;
+        let snap = st.get(1).and_then(|v| v.as_u64()).unwrap_or(0) != 0;
+        if clear != 0 {
+            let cur = rt.memory.read_internal_byte(ISR).unwrap_or(0);
+            rt.memory.write_internal_byte(ISR, cur & !clear);
+        }
+        if snap {
+            let path = std::path::Path::new(snap_path);
+            if let Err(e) = rt.save_snapshot(path) {
+                return json!({"error": format!("save_snapshot: {e}"), "obs": obs});
+            }
+            let mut fresh = CoreRuntime::new();
+            if let Err(e) = fresh.load_snapshot(path) {
+                return json!({"error": format!("load_snapshot: {e}"), "obs": obs});
+            }
+            rt = fresh;
+            let isr = rt.memory.read_internal_byte(ISR).unwrap_or(0);
+            obs.push(json!({"restored": [rt.cycle_count(), isr, rt.timer.next_mti, rt.timer.next_sti,
+                                          rt.state.is_halted(), rt.state.pc()]}));
+        }
+        if let Err(e) = rt.step(1) {
+            return json!({"error": format!("step: {e}"), "obs": obs});
+        }
+        let isr = rt.memory.read_internal_byte(ISR).unwrap_or(0);
+        obs.push(json!([rt.cycle_count(), isr, rt.timer.next_mti, rt.timer.next_sti,
+                        rt.state.is_halted(), rt.state.pc()]));
+    }
+    json!({"obs": obs})
+}
+
+fn guarded<F: FnOnce() -> Value>(f: F) -> Value {
+    match std::panic::catch_unwind(std::panic::AssertUnwindSafe(f)) {
+        Ok(v) => v,
+        Err(e) => {
+            let msg = if let Some(s) = e.downcast_ref::<&str>() {
+                s.to_string()
+            } else if let Some(s) = e.downcast_ref::<String>() {
+                s.clone()
+            } else {
+                "panic".to_string()
+            };
+            json!({"panic": msg})
+        }
+    }
+}
+
+pub fn handle(verb: &str, req: &Value, _st: &mut State) -> Value {
+    match verb {
+        "machine" => {
+            let empty = Vec::new();
+            let cases = req.get("cases").and_then(|v| v.as_array()).unwrap_or(&empty);
+            let results: Vec<Value> = cases.iter().map(|c| guarded(|| run_machine(c))).collect();
+            json!({"ok": true, "results": results})
+        }
+        "batch" => {
+            let empty = Vec::new();
+            let cases = req.get("cases").and_then(|v| v.as_array()).unwrap_or(&empty);
+            let mut results: Vec<Value> = Vec::with_capacity(cases.len());
+            for case in cases {
+                let r = std::panic::catch_unwind(std::panic::AssertUnwindSafe(|| run_case(case)));
+                results.push(match r {
+                    Ok(v) => v,
+                    Err(e) => {
+                        let msg = if let Some(s) = e.downcast_ref::<&str>() {
+                            s.to_string()
+                        } else if let Some(s) = e.downcast_ref::<String>() {
+                            s.clone()
+                        } else {
+                            "panic".to_string()
+                        };
+                        json!({"panic": msg})
+                    }
+                });
+            }
+            json!({"ok": true, "results": results})
+        }
+        _ => err(format!("unknown c13 verb {verb}")),
+    }
 }
